@@ -797,6 +797,24 @@ func (w *wk) famSchnorrEdge(n int, csv [][]string) {
 			e := new(big.Int).Mod(refec.FromBytes(refec.TaggedHash("BIP0340/challenge", rx, pk, msg)), N)
 			s := new(big.Int).Mod(new(big.Int).Mul(e, dd), N)
 			w.schnorr("R=infinity", pk, append(rx, b32(s)...), msg)
+			// burst: many messages with r = x of a point the verifier's own multiplication handles last (G, the key,
+			// 2^128*G). R = infinity must be refused whatever r is - also when r equals the x of coordinates left over in
+			// the accumulator. By construction the expected verdict is "reject"; every 64th case (and every acceptance or
+			// panic) goes through the reference as well.
+			rxs := [][]byte{b32(refec.Gx), pk, b32(refec.ScalarBaseMult(new(big.Int).Lsh(big.NewInt(1), 128)).X)}
+			for i := 0; i < 360; i++ {
+				rx := rxs[i%len(rxs)]
+				m := w.rng.Bytes(32)
+				e := new(big.Int).Mod(refec.FromBytes(refec.TaggedHash("BIP0340/challenge", rx, pk, m)), N)
+				sg := append(append([]byte(nil), rx...), b32(new(big.Int).Mod(new(big.Int).Mul(e, dd), N))...)
+				got, pan := callSchnorr(pk, sg, m)
+				if got || pan != nil || i%64 == 0 {
+					w.schnorr("R=infinity/burst", pk, sg, m)
+					continue
+				}
+				w.run.Inc("schnorr_r_infinity_burst_rejected")
+				w.run.Inc("evaluations")
+			}
 		case 10: // other message lengths are outside BIP340's default signing; same 32-byte msg, swapped halves
 			w.schnorr("sig-halves-swapped", pk, append(append([]byte(nil), sig[32:]...), sig[:32]...), msg)
 		default: // signature of another key
